@@ -203,6 +203,9 @@ func TestVfC08Redis(t *testing.T) {
 				names.Delete(key(n.label, n.typ, n.cls))
 			}
 		}()
+		// the store answers at once, or after a latency under which the proxies' writes to it queue up
+		P.redis.Delay.Store(int64(time.Duration(rapid.SampledFrom([]int{0, 0, 1000, 3000}).Draw(t, "storeLatencyMicros")) * time.Microsecond))
+		defer P.redis.Delay.Store(0)
 		logFrom := len(P.redis.Log())
 		type obs struct {
 			n      *c08rName
